@@ -1272,7 +1272,12 @@ func blockid(run *vh.Run) {
 		switch scenario {
 		case "altered-header": // the relay changes the content but leaves the announced identifier
 			alteredAt = rng.Intn(n)
-			alteredField = mutateHeader(send[alteredAt].Header, rng)
+			if i == 0 { // the minimal replay of notes/C18.md
+				send[0].Header.TxsRootHash = flipNZ(send[0].Header.TxsRootHash, rng)
+				alteredField = "TxsRootHash"
+			} else {
+				alteredField = mutateHeader(send[alteredAt].Header, rng)
+			}
 		case "altered-hash":
 			k := rng.Intn(n)
 			send[k].Hash = flipNZ(send[k].Hash, rng)
